@@ -1208,6 +1208,10 @@ class Signature:
             if composite not in composite_to_name:
                 return
             name = composite_to_name[composite]
+            param = self.parameters.get(name)
+            if param is None or param.kind is ParameterKind.POSITIONAL_ONLY:
+                # cannot be passed as a keyword argument
+                return
             new_keywords.append(ast.keyword(arg=name, value=arg))
         new_keywords += node.keywords
         new_node = ast.Call(func=node.func, args=new_args, keywords=new_keywords)
